@@ -355,6 +355,8 @@ def classify_loop(fx, body, L):
             it = q.arg_terms(c)[0]
             break
     if it is None:
+        it = q.counter_loop(body, L)          # `while c < n { ..; c += 1 }`
+    if it is None:
         return 'other', 'no iterator drives this loop'
     src = q.unwrap_into_iter(it)
     # strip memory-bounded adaptors
